@@ -2,6 +2,7 @@ import Uds.Props.C07
 import Uds.Spec.Request
 import Uds.Props.C19
 import Uds.Props.C14
+import Uds.Props.C03
 /-
   C01 — each request sent is the exact ISO-14229 encoding of the call's arguments.
   For every request builder: when `make_request` succeeds, the payload is `sid :: [sub-function] ++ parameters`
@@ -674,6 +675,85 @@ theorem simple_frame_decodes (std : Nat) (e : Entry) (r : Request) (v : Spec.Req
     refine ⟨_, 0x31, payload_sf _ _ _ _ svc_rc rfl (by decide) (by omega), ?_⟩
     have hlt : rid.toNat < 256 ^ 2 := by omega
     simp [Spec.decodeRequest, Spec.hasSubfn, Spec.decodeSubfn, b1, b2, Spec.pBE_toBE 2 _ _ hlt]; omega
+
+/-! ### the remaining simple entry points: security access, communication control, link control, clear DTC -/
+
+theorem svc_sa : svc "SecurityAccess" = ⟨"SecurityAccess", 0x27, true, true⟩ := by decide
+theorem svc_cc : svc "CommunicationControl" = ⟨"CommunicationControl", 0x28, true, true⟩ := by decide
+theorem svc_lc : svc "LinkControl" = ⟨"LinkControl", 0x87, true, true⟩ := by decide
+theorem svc_cl : svc "ClearDiagnosticInformation" = ⟨"ClearDiagnosticInformation", 0x14, false, false⟩ := by decide
+
+/-- **request_seed / send_key**: the transmitted sub-function is the normalised level (odd for a seed request, even for a key), followed by the data -/
+theorem sa_frame_decodes (l : Int) (mode : SaMode) (d : Bytes) (r : Request) (view : Spec.SrvView) (h : saMakeRequest l mode d = .ok r) :
+    ∃ frame sf, r.getPayload = .ok frame ∧ normalizeLevel mode l = .ok sf ∧ Spec.decodeRequest view frame = some ⟨0x27, false, .securityAccess sf d⟩ := by
+  simp only [saMakeRequest, bind_ok, validateInt_ok, pure_ok] at h
+  obtain ⟨_, _, sf, hsf, rfl⟩ := h
+  have hlt := Uds.Props.C03.normalizeLevel_lt mode l sf hsf
+  obtain ⟨b1, b2⟩ := sf_byte hlt
+  refine ⟨_, sf, payload_sf _ _ _ _ svc_sa rfl (by decide) (by omega), hsf, ?_⟩
+  simp [Spec.decodeRequest, Spec.hasSubfn, Spec.decodeSubfn, b1, b2]; omega
+
+/-- **communication_control**: control type, the communication type byte as given, and the 16-bit node identifier when the edition asks for one -/
+theorem commControl_frame_decodes (std : Nat) (ct : Int) (c : Nat) (node : Option Int) (r : Request) (view : Spec.SrvView)
+    (h : commControlMakeRequest std ct c node = .ok r) :
+    ∃ frame, r.getPayload = .ok frame ∧ Spec.decodeRequest view frame = some ⟨0x28, false, .commControl ct.toNat c (node.map Int.toNat)⟩ := by
+  simp only [commControlMakeRequest, bind_ok, validateInt_ok, ite_throw_bind_ok] at h
+  obtain ⟨_, ⟨h0, h1⟩, _, _, x, hx, p, hp, hr⟩ := h
+  have hc : c < 256 := by
+    by_cases hc : c ≤ 0xFF
+    · omega
+    · rw [C19.commtype_rejects_wide c (by omega)] at hx; cases hx
+  have hbyte := C19.commtype_encode_decode c hc x hx
+  rw [packB_ok] at hp
+  obtain ⟨_, rfl⟩ := hp
+  obtain ⟨b1, b2⟩ := sf_byte (show ct.toNat < 128 by omega)
+  have hcb : (UInt8.ofNat c).toNat = c := toNat_ofNat_lt hc
+  cases node with
+  | none =>
+    simp only [pure_ok] at hr; subst hr
+    refine ⟨_, payload_sf _ _ _ _ svc_cc rfl (by decide) (by omega), ?_⟩
+    simp [Spec.decodeRequest, Spec.hasSubfn, Spec.decodeSubfn, b1, b2, hbyte, Spec.pU8_cons, hcb]; omega
+  | some n =>
+    simp only [bind_ok, validateInt_ok, pure_ok] at hr
+    obtain ⟨_, ⟨n0, n1⟩, rfl⟩ := hr
+    refine ⟨_, payload_sf _ _ _ _ svc_cc rfl (by decide) (by omega), ?_⟩
+    have hn : n.toNat < 256 ^ 2 := by omega
+    have := Spec.pBE_toBE 2 n.toNat [] hn
+    rw [List.append_nil] at this
+    have hne : toBE 2 n.toNat ≠ [] := by simp [toBE]
+    simp [Spec.decodeRequest, Spec.hasSubfn, Spec.decodeSubfn, hbyte, Spec.pU8_cons, hcb, this, hne]
+    omega
+
+/-- **link_control**: control type and the baud-rate bytes -/
+theorem linkControl_frame_decodes (ct : Int) (baud : Option Baudrate) (r : Request) (view : Spec.SrvView) (h : linkControlMakeRequest ct baud = .ok r) :
+    ∃ frame data, r.getPayload = .ok frame ∧ r.data = data ∧ Spec.decodeRequest view frame = some ⟨0x87, false, .linkControl ct.toNat (data.getD [])⟩ := by
+  obtain ⟨⟨h0, h1⟩, data, rfl⟩ := Uds.Props.C03.linkControl_shape ct baud r h
+  obtain ⟨b1, b2⟩ := sf_byte (show ct.toNat < 128 by omega)
+  refine ⟨_, data, payload_sf _ _ _ _ svc_lc rfl (by decide) (by omega), rfl, ?_⟩
+  simp [Spec.decodeRequest, Spec.hasSubfn, Spec.decodeSubfn, b1, b2]; omega
+
+
+/-- **clear_dtc**: the 3-byte group and, from the 2020 edition, the memory selection byte -/
+theorem clearDtc_frame_decodes (std : Nat) (g : Int) (m : Option Int) (r : Request) (view : Spec.SrvView) (h : clearDtcMakeRequest std g m = .ok r) :
+    ∃ frame, r.getPayload = .ok frame ∧ Spec.decodeRequest view frame = some ⟨0x14, false, .clearDtc g.toNat (m.map Int.toNat)⟩ := by
+  simp only [clearDtcMakeRequest, bind_ok, validateInt_ok] at h
+  obtain ⟨_, ⟨g0, g1⟩, h⟩ := h
+  have hg : g.toNat < 2 ^ 24 := by omega
+  cases m with
+  | none =>
+    simp only [pure_ok] at h; subst h
+    refine ⟨_, payload_nosf _ _ _ svc_cl rfl (by decide), ?_⟩
+    have := pBE_packDtc g.toNat [] hg
+    rw [List.append_nil] at this
+    simp [Spec.decodeRequest, Spec.hasSubfn, Spec.decodeNoSubfn, this]
+  | some x =>
+    simp only [bind_ok, ite_throw_bind_ok, validateInt_ok, pure_ok] at h
+    obtain ⟨_, _, ⟨x0, x1⟩, rfl⟩ := h
+    refine ⟨_, payload_nosf _ _ _ svc_cl rfl (by decide), ?_⟩
+    have hx : (UInt8.ofNat x.toNat).toNat = x.toNat := toNat_ofNat_lt (by omega)
+    have := pBE_packDtc g.toNat [UInt8.ofNat x.toNat] hg
+    simp [Spec.decodeRequest, Spec.hasSubfn, Spec.decodeNoSubfn, this, Spec.pU8_cons, hx]
+
 
 /-! ### positive-response suppression: only bit 7 of the sub-function byte differs, and the decoder reads it back -/
 
